@@ -1,4 +1,5 @@
 //! One module per claimed property: workload generator + oracle.
+pub mod c12;
 pub mod c13;
 pub mod c16;
 pub mod c17;
@@ -10,6 +11,7 @@ use crate::engine::Property;
 
 pub fn by_id(id: &str) -> Option<&'static dyn Property> {
     match id {
+        "C12" => Some(&c12::C12),
         "C13" => Some(&c13::C13),
         "C16" => Some(&c16::C16),
         "C17" => Some(&c17::C17),
